@@ -393,6 +393,18 @@ static void family_format(void) {
         evals++; check_init("init_numb-tie", -x, x / 8.0, 0, 5, &nontriv);
         evals++; check_init("init_numb-tie", x * 10.0, 0.0, -1, 5, &nontriv);
     }
+    /* large integers around exact decimal ties: (10 d + 5) x 10^m and its two neighbouring doubles, rounded at scale -(m+1) */
+    { int m, d; for (m = 1; m <= 24; m++) for (d = 0; d <= 19; d++, idx++) {
+        double base = (10.0 * d + 5.0) * pow(10.0, m), up, dn; char chk[64];
+        if (idx % NW != WK) continue;
+        snprintf(chk, sizeof chk, "%.0f", base);
+        up = nextafter(base, INFINITY); dn = nextafter(base, 0.0);
+        evals++; check_init("init_numb-bigtie", base, 0.0, -(m + 1), 5, &nontriv);
+        evals++; check_init("init_numb-bigtie", up, 0.0, -(m + 1), 5, &nontriv);
+        evals++; check_init("init_numb-bigtie", dn, 0.0, -(m + 1), 5, &nontriv);
+        evals++; check_init("init_numb-bigtie", -up, up, -(m + 1), 5, &nontriv);
+        evals++; check_init("init_numb-bigtie", 3.0 * pow(10.0, m + 2), dn, -(m + 1), 5, &nontriv);
+    } }
     for (i = 0; i < sizeof classics / sizeof classics[0]; i++) for (j = 1; j < sizeof sus / sizeof sus[0]; j++) for (k = 0; k < sizeof rules / sizeof rules[0]; k++, idx++) {
         if (idx % NW != WK) continue;
         evals++; check_auto("autoinit_numb", classics[i], sus[j], rules[k], &nontriv);
